@@ -632,8 +632,7 @@ func (x Expr) set(data, value any, fun string, one bool) error {
 				switch tv := prev.(type) {
 				case map[string]any:
 					// Put prev back and slide fi.
-					stack[len(stack)-1] = prev
-					stack = append(stack, di|descentFlag)
+					stack = append(stack, prev, di|descentFlag)
 					for _, v = range tv {
 						switch v.(type) {
 						case nil, gen.Bool, gen.Int, gen.Float, gen.String,
@@ -654,8 +653,7 @@ func (x Expr) set(data, value any, fun string, one bool) error {
 					}
 				case []any:
 					// Put prev back and slide fi.
-					stack[len(stack)-1] = prev
-					stack = append(stack, di|descentFlag)
+					stack = append(stack, prev, di|descentFlag)
 					for i := len(tv) - 1; 0 <= i; i-- {
 						v = tv[i]
 						switch v.(type) {
@@ -677,8 +675,7 @@ func (x Expr) set(data, value any, fun string, one bool) error {
 					}
 				case Keyed:
 					// Put prev back and slide fi.
-					stack[len(stack)-1] = prev
-					stack = append(stack, di|descentFlag)
+					stack = append(stack, prev, di|descentFlag)
 					for _, k := range tv.Keys() {
 						v, _ = tv.ValueForKey(k)
 						switch v.(type) {
@@ -700,8 +697,7 @@ func (x Expr) set(data, value any, fun string, one bool) error {
 					}
 				case Indexed:
 					// Put prev back and slide fi.
-					stack[len(stack)-1] = prev
-					stack = append(stack, di|descentFlag)
+					stack = append(stack, prev, di|descentFlag)
 					for i := tv.Size() - 1; 0 <= i; i-- {
 						v = tv.ValueAtIndex(i)
 						switch v.(type) {
@@ -723,8 +719,7 @@ func (x Expr) set(data, value any, fun string, one bool) error {
 					}
 				case gen.Object:
 					// Put prev back and slide fi.
-					stack[len(stack)-1] = prev
-					stack = append(stack, di|descentFlag)
+					stack = append(stack, prev, di|descentFlag)
 					for _, v = range tv {
 						switch v.(type) {
 						case map[string]any, []any, gen.Object, gen.Array, Keyed, Indexed:
@@ -734,8 +729,7 @@ func (x Expr) set(data, value any, fun string, one bool) error {
 					}
 				case gen.Array:
 					// Put prev back and slide fi.
-					stack[len(stack)-1] = prev
-					stack = append(stack, di|descentFlag)
+					stack = append(stack, prev, di|descentFlag)
 					for i := len(tv) - 1; 0 <= i; i-- {
 						v = tv[i]
 						switch v.(type) {
